@@ -9,11 +9,11 @@ CLASS_HOME = {"IOSupport": "src/assignment_io.py", "StrandDetector": "src/gene_i
 
 @spec("str, int, tuple[int,int], str -> bool")
 def canon(ref, start, intron, strand):
-    # the dinucleotides at both ends of the intron, read from the reference window that starts at `start`,
+    # the dinucleotides at both ends of the intron, read (case-insensitively) from the reference window that starts at `start`,
     # form a canonical pair for the given strand (left site first): GT-AG, GC-AG, AT-AC and their reverse complements
-    return ((ref[intron[0] - start:intron[0] - start + 2], ref[intron[1] - start - 1:intron[1] - start + 1])
+    return ((ref[intron[0] - start:intron[0] - start + 2].upper(), ref[intron[1] - start - 1:intron[1] - start + 1].upper())
             in {("GT", "AG"), ("GC", "AG"), ("AT", "AC")}) if strand == '+' else \
-        ((ref[intron[0] - start:intron[0] - start + 2], ref[intron[1] - start - 1:intron[1] - start + 1])
+        ((ref[intron[0] - start:intron[0] - start + 2].upper(), ref[intron[1] - start - 1:intron[1] - start + 1].upper())
          in {("CT", "AC"), ("CT", "GC"), ("GT", "AT")})
 
 
@@ -260,6 +260,35 @@ def c18_annotated(tier, rng):
                                  "inputs": {"isoform_strands": list(strands), "reference_sites": [l, r]}, "observed": got, "required": want})
     return {"obligations": obl, "discharged": dis, "violations": viol, "cases": obl, "exhaustive": True,
             "bound": "1-3 isoforms x strands x 3 reference contexts", "samples": [{"isoform_strands": ["+", "-", "-"], "reference_sites": ["GT", "AG"], "want": "+"}]}
+
+
+@finite("C18.canonical_flag_table", ["C18"], note="the real IOSupport.check_sites_are_canonical on every pair of site dinucleotides over "
+        "{A,C,G,T,N,a,c,g,t} x both strands: True exactly when the pair, read case-insensitively (a soft-masked reference holds the same "
+        "bases in lower case), is a canonical pair of that strand")
+def c18_flag_table(tier, rng):
+    import itertools, types
+    aio = native.repo_import("src/assignment_io.py")
+    io_ = aio.IOSupport.__new__(aio.IOSupport)
+    FWD = {("GT", "AG"), ("GC", "AG"), ("AT", "AC")}
+    comp = {"A": "T", "C": "G", "G": "C", "T": "A"}
+    REV = {("".join(comp[c] for c in reversed(r)), "".join(comp[c] for c in reversed(l))) for l, r in FWD}
+    dinucs = ["".join(p) for p in itertools.product("ACGTNacgt", repeat=2)]
+    obl = dis = 0
+    viol = []
+    for strand, table in (("+", FWD), ("-", REV)):
+        for l in dinucs:
+            for r in dinucs:
+                obl += 1
+                g = types.SimpleNamespace(reference_region="NN" + l + "NNNN" + r + "NN", all_read_region_start=10, canonical_sites={})
+                got = io_.check_sites_are_canonical([(12, 19)], g, strand)
+                want = (l.upper(), r.upper()) in table
+                if got == want:
+                    dis += 1
+                elif len(viol) < 3:
+                    viol.append({"obligation": "C18.canonical_flag_table.%s.%s_%s" % ("fwd" if strand == "+" else "rev", l, r),
+                                 "inputs": {"left": l, "right": r, "strand": strand}, "observed": got, "required": want})
+    return {"obligations": obl, "discharged": dis, "violations": viol, "cases": obl, "exhaustive": True,
+            "bound": "81 x 81 dinucleotide pairs x 2 strands", "samples": [{"left": "gt", "right": "ag", "strand": "+", "want": True}]}
 
 
 def _isolation_case(seed):
